@@ -132,6 +132,7 @@ type FA struct {
 	EntryWhy  []string // caller-derived entry facts (closed world), for the evidence
 	postMemo  map[*ssa.Call][]Fact
 	narrowDef map[int]narrowDef // atoms that stand for an operation narrowed to its type
+	mulDef    map[int][2]LF     // atoms that stand for a product of two non-constant factors that cannot wrap
 }
 
 // NewFA prepares the analysis of fn.
@@ -583,6 +584,29 @@ func (f *FA) withNarrowFacts(facts []Fact) []Fact {
 	return out
 }
 
+// unwrapOffset rewrites atoms that stand for int-wide arithmetic which might have wrapped (cursor + 4 in int) into
+// the arithmetic itself. Only for positions in a buffer the code writes through: such a position is at most the
+// buffer's capacity, which is far below the range of int, so the sum that produced it did not wrap.
+func (f *FA) unwrapOffset(l LF) LF {
+	ilo, ihi, _ := f.typeRange(types.Typ[types.Int])
+	for round := 0; round < 6; round++ {
+		changed := false
+		for a, k := range l.T {
+			d, ok := f.narrowDef[a]
+			if !ok || d.lo > ilo || d.hi < ihi {
+				continue
+			}
+			l = l.add(LF{T: map[int]int64{a: 1}}, -k).add(d.inner, k)
+			changed = true
+			break
+		}
+		if !changed {
+			break
+		}
+	}
+	return l
+}
+
 func (f *FA) lf0(v ssa.Value) LF {
 	tlo, thi, isInt := f.typeRange(v.Type())
 	opaqueKey := func(key string) LF {
@@ -636,7 +660,16 @@ func (f *FA) lf0(v ssa.Value) LF {
 			if alo >= 0 && blo >= 0 && ahi < INF && bhi < INF {
 				p := mulsat(ahi, bhi)
 				if p <= thi && p < INF {
-					return f.atomLF(k, name, mulsat(alo, blo), p)
+					// the product does not wrap: remember its factors, so that a guard pinning one of them
+					// makes it linear (withProductFacts)
+					r := f.atomLF(k, name, mulsat(alo, blo), p)
+					if id, ok := singleAtom(r); ok {
+						if f.mulDef == nil {
+							f.mulDef = map[int][2]LF{}
+						}
+						f.mulDef[id] = [2]LF{a, b}
+					}
+					return r
 				}
 			}
 			return f.atomLF(k, name, tlo, thi)
@@ -715,6 +748,10 @@ func (f *FA) lf0(v ssa.Value) LF {
 				// copy returns min(len(dst), len(src)); when one is never longer than the other it is that length
 				d, sl := f.SliceLen(x.Call.Args[0]), f.SliceLen(x.Call.Args[1])
 				if lo, _ := f.bounds(d.add(sl, -1), nil); lo >= 0 {
+					return sl
+				}
+				// a buffer sized by a first pass over the same list (sumloop.go)
+				if f.C.fullCopies(f.Fn)[x] {
 					return sl
 				}
 				if lo, _ := f.bounds(sl.add(d, -1), nil); lo >= 0 {
@@ -801,6 +838,41 @@ func (f *FA) liveEdges(x *ssa.Phi) []ssa.Value {
 	return out
 }
 
+// addendsBeside flattens a tree of additions: e = x + k + Σ rest, with x occurring exactly once.
+func addendsBeside(e ssa.Value, x *ssa.Phi) (rest []ssa.Value, k int64, ok bool) {
+	n := 0
+	var walk func(v ssa.Value, depth int) bool
+	walk = func(v ssa.Value, depth int) bool {
+		if v == ssa.Value(x) {
+			n++
+			return true
+		}
+		if c, isC := v.(*ssa.Const); isC {
+			if c.Value == nil || c.Value.Kind() != constant.Int {
+				return false
+			}
+			i, exact := constant.Int64Val(c.Value)
+			if !exact || i <= -INF || i >= INF {
+				return false
+			}
+			k += i
+			return true
+		}
+		if b, isB := v.(*ssa.BinOp); isB && b.Op == token.ADD && depth < 8 && types.Identical(b.Type(), x.Type()) {
+			return walk(b.X, depth+1) && walk(b.Y, depth+1)
+		}
+		rest = append(rest, v)
+		return true
+	}
+	if _, isB := e.(*ssa.BinOp); !isB {
+		return nil, 0, false
+	}
+	if !walk(e, 0) || n != 1 {
+		return nil, 0, false
+	}
+	return rest, k, true
+}
+
 func (f *FA) phiLF(x *ssa.Phi, tlo, thi int64) LF {
 	key := "phi:" + x.Name()
 	if live := f.liveEdges(x); len(live) == 1 && live[0] != ssa.Value(x) {
@@ -811,6 +883,32 @@ func (f *FA) phiLF(x *ssa.Phi, tlo, thi int64) LF {
 	okUp, okDown := true, true
 	var steps []int64
 	var backs []int // edge indices of back edges
+	// whatever is evaluated before the φ has its atom sees a placeholder for it; forget those results afterwards
+	seenLF := map[ssa.Value]bool{}
+	for k := range f.lfMemo {
+		seenLF[k] = true
+	}
+	seenLen := map[ssa.Value]bool{}
+	for k := range f.lenMemo {
+		seenLen[k] = true
+	}
+	purge := func() {
+		for k := range f.lfMemo {
+			if !seenLF[k] {
+				delete(f.lfMemo, k)
+			}
+		}
+		for k := range f.lenMemo {
+			if !seenLen[k] {
+				delete(f.lenMemo, k)
+			}
+		}
+	}
+	defer func() {
+		if purge != nil {
+			purge()
+		}
+	}()
 	for i, e := range x.Edges {
 		if c, ok := e.(*ssa.Const); ok && c.Value != nil && c.Value.Kind() == constant.Int {
 			if v, ok := constant.Int64Val(c.Value); ok {
@@ -850,11 +948,62 @@ func (f *FA) phiLF(x *ssa.Phi, tlo, thi int64) LF {
 				}
 			}
 		}
+		// the same through intermediate values: offset = (offset + 4) + n, every addend other than the φ
+		// constant or provably non-negative, small and independent of the φ
+		if rest, k, ok := addendsBeside(e, x); ok && k >= 0 {
+			total, good := k, true
+			for _, r := range rest {
+				if dependsOnValue(r, x, 0) {
+					good = false
+					break
+				}
+				if _, _, isInt := f.typeRange(r.Type()); !isInt {
+					good = false
+					break
+				}
+				env := f.refine(f.FactsAt(x.Block().Preds[i]))
+				slo, shi := f.bounds(f.LFOf(r), env)
+				if slo < 0 || shi > 1<<20 {
+					good = false
+					break
+				}
+				total += shi
+			}
+			if good && total <= 1<<21 {
+				okDown = okDown && total == 0
+				steps = append(steps, total)
+				backs = append(backs, i)
+				continue
+			}
+		}
 		okUp, okDown = false, false
 	}
 	if len(steps) == 0 {
 		// not an induction variable: a merge of values; interval join of the incoming edges
 		lo2, hi2 := int64(INF), int64(-INF)
+		// an edge that depends on the φ itself (offset = offset + 4 + n through intermediate values) is evaluated
+		// with a placeholder for the φ; what was memoised under the placeholder is forgotten afterwards, so that
+		// later uses see the φ's own atom
+		beforeLF := map[ssa.Value]bool{}
+		for k := range f.lfMemo {
+			beforeLF[k] = true
+		}
+		beforeLen := map[ssa.Value]bool{}
+		for k := range f.lenMemo {
+			beforeLen[k] = true
+		}
+		defer func() {
+			for k := range f.lfMemo {
+				if !beforeLF[k] {
+					delete(f.lfMemo, k)
+				}
+			}
+			for k := range f.lenMemo {
+				if !beforeLen[k] {
+					delete(f.lenMemo, k)
+				}
+			}
+		}()
 		for i, e := range x.Edges {
 			if f.predDead(x.Block(), i) {
 				continue
@@ -914,6 +1063,8 @@ func (f *FA) phiLF(x *ssa.Phi, tlo, thi int64) LF {
 			H = thi
 		}
 		id := f.newAtom(key, x.Name(), lo, H)
+		purge()
+		purge = nil
 		beforeLF := map[ssa.Value]bool{}
 		for k := range f.lfMemo {
 			beforeLF[k] = true
@@ -969,6 +1120,11 @@ func dependsOnValue(v, target ssa.Value, depth int) bool {
 	case *ssa.BinOp:
 		return dependsOnValue(e.X, target, depth+1) || dependsOnValue(e.Y, target, depth+1)
 	case *ssa.UnOp:
+		if e.Op == token.MUL {
+			// a value read from memory: where it is read may depend on the target, what is read is not computed
+			// from it (like the result of a call on octets at the cursor)
+			return false
+		}
 		return dependsOnValue(e.X, target, depth+1)
 	case *ssa.Convert:
 		return dependsOnValue(e.X, target, depth+1)
@@ -1363,8 +1519,169 @@ func floorDiv(a, b int64) int64 {
 func ceilDiv(a, b int64) int64 { return -floorDiv(-a, b) }
 
 // Prove tries to show g >= 0 from facts. Sound, incomplete. The returned string names the facts used.
+// withProductFacts: a product atom whose one factor the facts pin to a constant c equals c times the other factor;
+// the atom is replaced by that linear form in every fact (and, by substProducts, in the goal).
+func (f *FA) productSubst(facts []Fact) map[int]LF {
+	if len(f.mulDef) == 0 {
+		return nil
+	}
+	e := f.refine(facts)
+	var sub map[int]LF
+	for id, d := range f.mulDef {
+		for i := 0; i < 2; i++ {
+			lo, hi := f.bounds(d[i], e)
+			if lo != hi || lo < 0 || lo > 1<<16 {
+				continue
+			}
+			if sub == nil {
+				sub = map[int]LF{}
+			}
+			sub[id] = d[1-i].scale(lo)
+			break
+		}
+	}
+	return sub
+}
+
+func substLF(l LF, sub map[int]LF) LF {
+	for id, r := range sub {
+		if k, ok := l.T[id]; ok && k != 0 {
+			l = l.add(LF{T: map[int]int64{id: 1}}, -k).add(r, k)
+		}
+	}
+	return l
+}
+
+func (f *FA) withProductFacts(facts []Fact) []Fact {
+	sub := f.productSubst(facts)
+	if sub == nil {
+		return facts
+	}
+	out := make([]Fact, len(facts))
+	for i, ft := range facts {
+		out[i] = Fact{L: substLF(ft.L, sub), NE: ft.NE}
+	}
+	return out
+}
+
+// infeasible: the facts contradict each other as far as intervals show (an atom's interval is empty, or a fact's
+// left side cannot reach 0).
+func (f *FA) infeasible(facts []Fact) bool {
+	facts = f.withProductFacts(f.withNarrowFacts(facts))
+	e := f.refine(facts)
+	for x, lo := range e.lo {
+		if _, hi := f.atomBounds(x, e); lo > hi {
+			return true
+		}
+	}
+	for x, hi := range e.hi {
+		if lo, _ := f.atomBounds(x, e); lo > hi {
+			return true
+		}
+	}
+	for _, ft := range facts {
+		if ft.NE {
+			continue
+		}
+		if _, hi := f.bounds(ft.L, e); hi < 0 {
+			return true
+		}
+	}
+	return false
+}
+
+// edgeFacts: what is known when control enters x from its predecessor p, beyond the facts of x's immediate
+// dominator: the guards between that dominator and p, and the condition of the edge itself.
+func (f *FA) edgeFacts(p, x *ssa.BasicBlock) []Fact {
+	var out []Fact
+	if iff, ok := p.Instrs[len(p.Instrs)-1].(*ssa.If); ok && p.Succs[0] != p.Succs[1] {
+		f.condFacts(iff.Cond, p.Succs[0] == x, &out)
+	}
+	stop := x.Idom()
+	for y := p; y != nil && y != stop; y = y.Idom() {
+		if fs, ok := f.extra[y]; ok {
+			out = append(out, fs...)
+		}
+		if len(y.Preds) == 1 {
+			q := y.Preds[0]
+			if iff, ok := q.Instrs[len(q.Instrs)-1].(*ssa.If); ok && q.Succs[0] != q.Succs[1] {
+				f.condFacts(iff.Cond, q.Succs[0] == y, &out)
+			}
+		}
+	}
+	return out
+}
+
+// DisjAt lists the case distinctions that hold at b: for every merge block on b's dominator chain that is not a
+// loop header, control came in through one of its predecessors, with that edge's facts. (At a loop header the
+// facts of the back edge speak about the previous iteration's values; everywhere else the values an edge's
+// facts mention are defined in blocks that dominate the predecessor and cannot be redefined before b without
+// passing the merge again.)
+func (f *FA) DisjAt(b *ssa.BasicBlock) [][][]Fact {
+	var out [][][]Fact
+	for x := b; x != nil; x = x.Idom() {
+		if len(x.Preds) < 2 || len(x.Preds) > 4 {
+			continue
+		}
+		header := false
+		for _, p := range x.Preds {
+			if x.Dominates(p) {
+				header = true
+			}
+		}
+		if header {
+			continue
+		}
+		var alts [][]Fact
+		informative := false
+		for i, p := range x.Preds {
+			if f.predDead(x, i) {
+				continue
+			}
+			fs := f.edgeFacts(p, x)
+			if len(fs) > 0 {
+				informative = true
+			}
+			alts = append(alts, fs)
+		}
+		if informative && len(alts) >= 2 {
+			out = append(out, alts)
+		}
+		if len(out) >= 4 {
+			break
+		}
+	}
+	return out
+}
+
+// ProveCases proves g by a case distinction over one of the disjunctions that hold at b: in every case the goal
+// follows or the case contradicts the facts.
+func (f *FA) ProveCases(g LF, facts []Fact, b *ssa.BasicBlock) (bool, string) {
+	for _, alts := range f.DisjAt(b) {
+		all := true
+		for _, alt := range alts {
+			fs := append(append([]Fact(nil), facts...), alt...)
+			if f.infeasible(fs) {
+				continue
+			}
+			if ok, _ := f.Prove(g, fs); !ok {
+				all = false
+				break
+			}
+		}
+		if all {
+			return true, fmt.Sprintf("case distinction over the %d ways into a dominating merge: in each the goal follows or the case is contradictory", len(alts))
+		}
+	}
+	return false, ""
+}
+
 func (f *FA) Prove(g LF, facts []Fact) (bool, string) {
 	facts = f.withNarrowFacts(facts)
+	if sub := f.productSubst(facts); sub != nil {
+		g = substLF(g, sub)
+		facts = f.withProductFacts(facts)
+	}
 	e := f.refine(facts)
 	if lo, _ := f.bounds(g, e); lo >= 0 {
 		if lo0, _ := f.bounds(g, nil); lo0 >= 0 {
